@@ -55,7 +55,7 @@ Ref(f, s) == IF f = "quote" THEN RefQuote(s) ELSE IF f = "upper" THEN UpperEscap
 VARIABLES inp, fn, out1, out2, stage
 vars == <<inp, fn, out1, out2, stage>>
 
-Init == /\ inp \in {RenderToks(ix) : ix \in Inputs}
+Init == /\ \E n \in 0..MaxLen : \E ix \in [1..n -> 1..NTok] : inp = RenderToks(ix)
         /\ fn \in Funs
         /\ out1 = <<>> /\ out2 = <<>> /\ stage = 0
 Apply1 == stage = 0 /\ out1' = Ref(fn, inp) /\ stage' = 1 /\ UNCHANGED <<inp, fn, out2>>
